@@ -9,7 +9,7 @@ set -u
 cd "$(dirname "$0")/.."
 P="$1"; L="$2"; DEMO="$3"; shift 3
 IDS="${*:-C01 C02 C03 C04 C05 C06 C07 C08 C09 C10 C11 C12 C13 C14 C15 C16 C17 C18 C19 C20}"
-SRC=/tmp/wt/$P
+SRC=${INGEST_SRC:-/tmp/wt}/$P
 PATCH=$SRC/seeded/$L/patch.diff
 [ -f "$PATCH" ] || { echo "no patch $PATCH"; exit 3; }
 export GOFLAGS=-mod=mod GOPROXY=off GOSUMDB=off GOTOOLCHAIN=local
